@@ -23,6 +23,9 @@ type Conn struct {
 func New(tr net.Conn) *Conn { return NewWithOptions(tr, Options{}) }
 
 func NewWithOptions(tr net.Conn, opts Options) *Conn {
+	if u, isWrapped := tr.(interface{ NetConn() net.Conn }); isWrapped { // the TLS pass-through wraps the in-memory connection
+		tr = u.NetConn()
+	}
 	mc, ok := tr.(*vnet.MemConn)
 	if !ok {
 		panic("vdrpcconn: transport is not an in-memory connection")
